@@ -42,7 +42,7 @@ def spec_to_json(spec):
 
 def spec_from_json(j):
     n, lab, o, dsn, seed, h = j
-    return (n, lab, {k: (np.array(v) if isinstance(v, list) else v) for k, v in o.items()}, dsn, seed, h)
+    return (n, lab, zoo.retype(lab, {k: (np.array(v) if isinstance(v, list) else v) for k, v in o.items()}), dsn, seed, h)
 
 
 def touch_all_views(est, ds):
@@ -222,6 +222,15 @@ def run_case(spec):
     tolu = cst * np.array([exact.scale_abs(L, p[0].astype(float), p[1].astype(float)) for p in pu]) + 1e-300
     cmp('pair_distance(uint8 array)', est.pair_distance(pu), tolu, refu)
     cmp('get_metric()(uint8 arrays)', [metric(p[0], p[1]) for p in pu], tolu, refu)
+    for dtq in (np.uint16, np.uint32, np.uint64, np.int8):
+        if np.dtype(dtq).kind == 'i':
+            pq = (pu // 2).astype(dtq)                     # fits a signed byte
+            refq = np.array([exact.sqrt_float(exact.d2_exact(Lf, exact.fvec(p[0]), exact.fvec(p[1]))) for p in pq])
+            tolq = cst * np.array([exact.scale_abs(L, p[0].astype(float), p[1].astype(float)) for p in pq]) + 1e-300
+        else:
+            pq, refq, tolq = pu.astype(dtq), refu, tolu
+        cmp('pair_distance(%s array)' % np.dtype(dtq).name, est.pair_distance(pq), tolq, refq)
+        cmp('get_metric()(%s arrays)' % np.dtype(dtq).name, [metric(p[0], p[1]) for p in pq], tolq, refq)
     # the same uint8 points held by a preprocessor (array, and callable returning uint8 rows), addressed by index pairs:
     # separately fitted objects, each compared with the exact reference of its own components_
     iu = np.array([[i, j] for i in range(4) for j in range(4)])
